@@ -140,6 +140,9 @@ func replayC20(w core.Witness) string {
 	if _, ok := w.Args["pair_lo"]; ok {
 		return replayC20AllPairs(w)
 	}
+	if _, ok := w.Args["range_lo"]; ok {
+		return replayC20RangeWindow(w)
+	}
 	var a gen.Node
 	if err := json.Unmarshal(w.AST, &a); err != nil {
 		return "witness has no AST"
@@ -180,6 +183,7 @@ func runC20(r *core.Run) int {
 	base := rand.New(rand.NewSource(r.Seed*236887691 + 20)).Int63()
 	runC20Named(r)
 	runC20AllPairs(r)
+	runC20RangeWindows(r)
 	r.Parallel(nPat, func(i int, l *core.Local) {
 		rng := rand.New(rand.NewSource(base + int64(i)*1000003))
 		opts := int(regexp2.IgnoreCase)
@@ -318,9 +322,9 @@ func runC20(r *core.Run) int {
 	})
 	r.Extras["bounds"] = map[string]any{"patterns": nPat, "inputs_per_pattern": nDirected, "input_flips": 3, "pattern_flips": 3}
 	return r.Finish(
-		"random ASTs compiled with IgnoreCase (some RightToLeft / Multiline) over simple-pair letters (ASCII without k and s, Latin-1, Latin Extended-A, Greek, Cyrillic, Armenian, fullwidth, circled letters (So), Roman numerals (Nl), Greek with title-case partners (Lt), Deseret from the supplementary planes): literal runs, leading literals for the prefix searches, classes, negated classes, subtractions, ranges inside one letter run, back-references; per (pattern,input): FindStringMatch == FindRunesMatch, three random case flips of the input letters and three random case flips of the pattern's literal letters / class members / range endpoints must all give the same match position and captures; plus the named classes: \\p{name}, \\P{name}, [^\\p{name}] and [\\w-[\\p{name}]] for each of 518 class names the engine accepts (categories under short and long names, scripts, binary properties, break-property values) against both members of all 1,397 simple case pairs of Unicode; and for every one of those pairs twelve one-letter constructs (literal, class, negated class, one-letter range, doubled literal, back-reference by number and name, subtraction, union with \\W, a three-letter run behind other text, look-behind, alternation loop) written with either member raw, as \\x{..} and as \\uXXXX, under IgnoreCase and IgnoreCase|RightToLeft (thorough: also with ECMAScript, RE2, m+s+n), on every case variant of the input; non-trivial = distinct (pattern,input) that matches",
+		"random ASTs compiled with IgnoreCase (some RightToLeft / Multiline) over simple-pair letters (ASCII without k and s, Latin-1, Latin Extended-A, Greek, Cyrillic, Armenian, fullwidth, circled letters (So), Roman numerals (Nl), Greek with title-case partners (Lt), Deseret from the supplementary planes): literal runs, leading literals for the prefix searches, classes, negated classes, subtractions, ranges inside one letter run, back-references; per (pattern,input): FindStringMatch == FindRunesMatch, three random case flips of the input letters and three random case flips of the pattern's literal letters / class members / range endpoints must all give the same match position and captures; plus the named classes: \\p{name}, \\P{name}, [^\\p{name}] and [\\w-[\\p{name}]] for each of 518 class names the engine accepts (categories under short and long names, scripts, binary properties, break-property values) against both members of all 1,397 simple case pairs of Unicode; and for every one of those pairs twelve one-letter constructs (literal, class, negated class, one-letter range, doubled literal, back-reference by number and name, subtraction, union with \\W, a three-letter run behind other text, look-behind, alternation loop) written with either member raw, as \\x{..} and as \\uXXXX, under IgnoreCase and IgnoreCase|RightToLeft (thorough: also with ECMAScript, RE2, m+s+n), on every case variant of the input; and ranges of two to five code points around every member of every pair ((?i)[lo-hi] must hold exactly the runes one of whose case variants lies in the range); non-trivial = distinct (pattern,input) that matches",
 		[]string{"only letters whose case-fold orbit is a simple upper/lower pair are flipped, as the property states"},
-		map[string]int64{"evaluations": 50000, "distinct_nontrivial": 5000, "flip_pattern": 10000, "flip_input": 10000, "named_classes": 400, "all_pairs_pairs": 1300})
+		map[string]int64{"evaluations": 50000, "distinct_nontrivial": 5000, "flip_pattern": 10000, "flip_input": 10000, "named_classes": 400, "all_pairs_pairs": 1300, "range_windows": 10000})
 }
 
 // inputsForPair builds inputs over the pattern's letters (both cases) and a few neutral runes.
